@@ -10,7 +10,7 @@ import (
 // Witness of the C05 finding fixed by "fix: parser: split the source text of raw string literals":
 // a raw string literal with a carriage return before an interpolated expression is a valid literal (carriage
 // returns are not part of a raw string's value); its ${...} part must be parsed from the text between the braces.
-func TestVerifWitnessRawStringCR(t *testing.T) {
+func TestGovcWitnessRawStringCR(t *testing.T) {
 	for _, src := range []string{"y := 1\nx := `a\r\n${y}`\n", "y := 1\nx := `\r\r\r${y}z`\n"} {
 		fset := token.NewFileSet()
 		f, err := ParseFile(fset, "a.xgo", src, 0)
